@@ -100,33 +100,45 @@ def check(ctx, rep):
     oe = h.methods.get("on_exiting")
     ge = h.methods.get("get_event")
     rep.require(oe is not None and ge is not None, "ShutdownAwareEventHandler.on_exiting / get_event not found")
-    ps, it = ctx.paths(oe, h, depth=0)
+    # the list of registered events: the field get_event appends to; the flag: the field on_exiting sets True
+    evf = set()
+    for p in ctx.paths(ge, h, depth=2, inline=lambda callee, ev, path: callee.owner is h)[0]:
+        for e in p.calls():
+            if q.call_name(e) in ("append", "add") and q.self_field(q.recv(e)):
+                evf.add(q.recv(e)[2])
+    rep.require(len(evf) == 1, "ShutdownAwareEventHandler.get_event: the list of registered events is not unique (%s)" % sorted(evf))
+    EVENTS = ("attr", SELF, evf.pop())
+    ps, it = ctx.paths(oe, h, depth=2, inline=lambda callee, ev, path: callee.owner is h)
     for p in ps:
-        st = [e for e in p.evs("store") if e.d["target"] == ("attr", SELF, "shutdown") and e.d["value"] == ("const", True)]
+        st = [e for e in p.evs("store") if q.self_field(e.d["target"]) and e.d["value"] == ("const", True)]
         sets = [e for e in p.calls() if q.call_name(e) == "set"]
         rep.ob("R-REFS-EVENT", "on_exiting raises the shutdown flag", len(st) == 1, "", where_of(oe))
         for s_ in sets:
             rep.ob("R-REFS-EVENT", "on_exiting raises the flag before it sets the events", bool(st) and st[0].seq < s_.seq, "an event is set before the flag is raised: a worker woken now re-reads the flag as false, clears its event and waits again -- for ever", where_of(oe, s_.node), trace_of(p, s_.seq))
         lp = [e for e in p.evs("loop") if e.d[0] == "enter"]
-        rep.ob("R-REFS-EVENT", "on_exiting walks the registered events", any(l.d[1] == ("attr", SELF, "events") for l in lp), "", where_of(oe))
-    ps, it = ctx.paths(ge, h, depth=0)
+        rep.ob("R-REFS-EVENT", "on_exiting walks the registered events", any(roles.container_of(l.d[1]) == EVENTS for l in lp), "", where_of(oe))
+    ps, it = ctx.paths(ge, h, depth=2, inline=lambda callee, ev, path: callee.owner is h)
     for p in ps:
         if p.status != "return":
             continue
-        apps = [e for e in p.calls() if q.call_name(e) == "append" and q.recv(e) == ("attr", SELF, "events")]
+        apps = [e for e in p.calls() if q.call_name(e) == "append" and q.recv(e) == EVENTS]
         ok = len(apps) == 1 and apps[0].d["args"][0][0] == "extnew" and apps[0].d["args"][0][1] == "weakref" and apps[0].d["args"][0][3][0] == p.value
         rep.ob("R-REFS-EVENT", "get_event registers the new event (weakly) with the exit hook", ok and p.value[0] == "extnew" and p.value[1] == "Event", "", where_of(ge), trace_of(p))
         regs = [e for e in p.calls() if q.call_name(e) == "register" and e.d["args"][:1] == (("attr", SELF, "on_exiting"),)]
-        first = p.assume.get(("attr", SELF, "atexit_registered"))
-        if first is False:
+        first = [v for t, v, b in q.atoms(p) if q.self_field(t) and t != EVENTS]
+        if first and first[0] is False:
             rep.ob("R-REFS-EVENT", "get_event installs the exit hook on first use", len(regs) == 1, "", where_of(ge))
+    hooked = [p for p in ps if any(q.call_name(e) == "register" for e in p.calls())]
+    rep.ob("R-REFS-EVENT", "get_event has a path installing the exit hook", bool(hooked), "atexit registration of on_exiting not found", where_of(ge))
 
     # ---- R-REFS-FUTURE
     fut = prog.cls("_Future")
     nf = 0
     for ci in prog.subclasses(fut, strict=True):
-        if not ctx.types.field_type(ci, "_executor"):
+        exf = [f for (ck, f), ts in ctx.types.field_types.items() if ck == ci.key and any(t.startswith("C:") and ctx.types.cls_of(t) in ctx.executor_classes() for t in ts)]
+        if not exf:
             continue
+        EXF = exf[0]
         nf += 1
         o, init = ci.lookup("__init__")
         ps, it = ctx.paths(init, ci, depth=0)
@@ -142,14 +154,17 @@ def check(ctx, rep):
                     if m is not None:
                         ps2, it2 = ctx.paths(m, ci, depth=0)
                         target = ("param", m.params[1]) if len(m.params) > 1 else SELF
-                        cleared = cleared or all(any(e.d["target"] == ("attr", target, "_executor") and e.d["value"] == ("const", None) for e in p2.evs("store")) for p2 in ps2 if p2.status == "return")
-            rep.ob("R-REFS-FUTURE", "%s drops its executor when done" % ci.name, cleared, "no done-callback registered by the constructor clears _executor: finished futures keep their executor (and its thread) alive", where_of(init))
+                        cleared = cleared or all(any(e.d["target"] == ("attr", target, EXF) and e.d["value"] == ("const", None) for e in p2.evs("store")) for p2 in ps2 if p2.status == "return")
+            rep.ob("R-REFS-FUTURE", "%s drops its executor when done" % ci.name, cleared, "no done-callback registered by the constructor clears the executor field: finished futures keep their executor (and its thread) alive", where_of(init))
     rep.count("future classes holding their executor", nf, 3)
-    mf = prog.cls("MapFuture")
-    dr = mf.methods.get("_delegate_resolved")
-    ps, it = ctx.paths(dr, mf, depth=1, inline=_setdel_only)
+    M = roles.map_roles(ctx)
+    mf = M.mf
+    drs = [m for m, recv in roles.registered_callbacks(ctx, mf).values() if recv != SELF]
+    rep.require(len(drs) == 1, "MapFuture: callback registered on the delegate not unique")
+    dr = drs[0]
+    ps, it = ctx.paths(dr, mf, depth=2, inline=lambda callee, ev, path: callee.owner is mf and not roles.is_dispatch(callee))
     for p in ps:
-        st = [e for e in p.evs("store") if e.d["target"] == ("attr", SELF, "_delegate")]
+        st = [e for e in p.evs("store") if e.d["target"] == ("attr", SELF, M.deleg)]
         ucalls = [e for e in p.calls() if e.d.get("user")]
         ok = bool(st) and st[0].d["value"] == ("const", None) and (not ucalls or st[0].seq < ucalls[0].seq)
         rep.ob("R-REFS-FUTURE", "MapFuture drops its delegate before mapping", ok, "", where_of(dr), trace_of(p))
@@ -178,7 +193,12 @@ def check(ctx, rep):
     # ---- R-REFS-JOBS
     rex = prog.cls("RetryExecutor")
     rfut = prog.cls("RetryFuture")
-    cb = rex.methods.get("_delegate_callback")
+    layer = roles.Layer(ctx, rex)
+    rep.require(layer.callback is not None, "RetryExecutor: delegate callback not identified")
+    cb = layer.callback
+    RQ = roles.Queue(ctx, rex)
+    RREM = roles.removers(ctx, RQ)
+    FUTF = RQ.roles["future"]
     ps, it = ctx.paths(cb, rex, depth=6, inline=_no_cb_inline)
     nres = 0
     for p in ps:
@@ -190,11 +210,11 @@ def check(ctx, rep):
                 job = e.d["args"][0]
         for b in p.evs("branch"):
             for sub in subterms(b.d[0]):
-                if sub[0] == "attr" and sub[2] == "future" and isinstance(sub[1], tuple) and sub[1][0] == "elem":
+                if sub[0] == "attr" and sub[2] == FUTF and isinstance(sub[1], tuple) and sub[1][0] == "elem":
                     job = sub[1]
         if job is None:
             continue
-        D = ("attr", job, "future")
+        D = ("attr", job, FUTF)
         terms = [e for e in p.calls() if terminal_on(e, D, it, p)]
         if not terms:
             continue
@@ -202,7 +222,7 @@ def check(ctx, rep):
         if any(b.seq > terms[0].seq and b.d[1] is False and isinstance(b.d[0], tuple) and b.d[0][0] == "call" and b.d[0][1][0] == "attr" and b.d[0][1][2] == "done" for b in p.evs("branch")):
             continue
         nres += 1
-        pj = [e for e in p.calls() if e.d["callee"] is not None and e.d["callee"].name == "_pop_job" and e.d["args"][:1] == (job,)]
+        pj = [e for e, j in roles.removal_actions(p, it, RQ, RREM) if j == job or (j is None and roles._removes(e, job, p))]
         rep.ob("R-REFS-JOBS", "_delegate_callback: a resolved/cancelled future's job is removed", bool(pj), "the future of %s is finished on this path but its job stays in the list, keeping future, callable and arguments alive" % fmt(job), where_of(cb), trace_of(p))
     rep.require(nres >= 3, "_delegate_callback: resolving paths not found")
     cm = fut.methods.get("cancel")
@@ -215,7 +235,7 @@ def check(ctx, rep):
         if not stdc:
             continue
         nt += 1
-        pj = [e for e in p.calls() if e.d["callee"] is not None and e.d["callee"].name == "_pop_job"]
+        pj = roles.removal_actions(p, it, RQ, RREM)
         rep.ob("R-REFS-JOBS", "RetryFuture.cancel: a successful cancel has removed the job", bool(pj), "cancel() goes on to cancel the future but no job was removed: the record stays in the executor for ever", where_of(cm), trace_of(p))
     rep.require(nt >= 2, "RetryFuture.cancel: cancelling paths not found")
 
